@@ -33,6 +33,12 @@ pub struct Case {
     /// before every observed call
     #[serde(default)]
     pub prelude: Option<([f64; 6], [f64; 6])>,
+    /// history: calls of the sampler on this very set that were made while the scenario was being
+    /// generated (locating the discontinuities of the sampler by bisection calls it). A replay in
+    /// a fresh process repeats that many calls (uniform draws) before the observed ones, so that
+    /// state the sampler keeps from call to call has seen the same number of calls.
+    #[serde(default)]
+    pub gen_calls: u64,
 }
 
 /// Build the constraints the way the case says. The oracle then reads the limits back from the
@@ -139,7 +145,12 @@ fn call(c: &Constraints, row: &[Out]) -> Result<[f64; 6], String> {
     call_after(c, row, &None)
 }
 
+thread_local! {
+    static CALLS: std::cell::Cell<u64> = const { std::cell::Cell::new(0) };
+}
+
 fn call_after(c: &Constraints, row: &[Out], prelude: &Option<([f64; 6], [f64; 6])>) -> Result<[f64; 6], String> {
+    CALLS.with(|n| n.set(n.get() + 1));
     if let Some((pf, pt)) = prelude {
         let other = Constraints::new(*pf, *pt, 0.0);
         let mut ctx = Ctx::idle();
@@ -211,7 +222,16 @@ fn judge_vector(case: &Case, c: &Constraints, row: usize, v: &[f64; 6], fails: &
 }
 
 pub fn judge(case: &Case) -> Vec<Fail> {
+    judge_with(case, false)
+}
+
+pub fn judge_with(case: &Case, repeat_gen_calls: bool) -> Vec<Fail> {
     let c = build(case);
+    if repeat_gen_calls {
+        for _ in 0..case.gen_calls {
+            let _ = call(&c, &[Out::U(0.5); 6]);
+        }
+    }
     // the limits the object itself holds are the ones its samples must satisfy
     let mut eff = case.clone();
     eff.from = c.from;
@@ -265,8 +285,9 @@ pub fn judge(case: &Case) -> Vec<Fail> {
                 let classes: Vec<&str> = (0..6).map(|j| class_of(case.from[j], case.to[j])).collect();
                 fails.push(Fail {
                     clause: "c:panic".into(),
-                    signature: format!("C18/panic/{}", classes.join(",")),
-                    detail: format!("random_angles panicked: {msg} (limits from {:?} to {:?})", case.from, case.to),
+                    // the panic site is the structural part; the limit classes are in the detail
+                    signature: format!("C18/panic/{}", msg.rsplit(" @ ").next().unwrap_or("").rsplit('/').next().unwrap_or("")),
+                    detail: format!("random_angles panicked: {msg} (limits from {:?} to {:?}; classes {})", case.from, case.to, classes.join(",")),
                     row,
                 })
             }
@@ -308,7 +329,7 @@ fn judge_vector_noidx(case: &Case, c: &Constraints, v: &[f64; 6], fails: &mut Ve
 
 pub fn replay_all(case: &Value) -> Vec<(String, String)> {
     match serde_json::from_value::<Case>(case.clone()) {
-        Ok(c) => judge(&c).into_iter().map(|f| (f.clause, f.detail)).collect(),
+        Ok(c) => judge_with(&c, true).into_iter().map(|f| (f.clause, f.detail)).collect(),
         Err(e) => vec![("harness:bad-case".into(), e.to_string())],
     }
 }
@@ -494,6 +515,93 @@ fn minimise_case(case: &Case, f: &Fail) -> Case {
     cur
 }
 
+/// The scenario of (seed, shard, run): limits, how the object is built, the rows of dictated
+/// draws (locating the sampler's discontinuities calls the sampler: part of the history), the
+/// relative sampled before each call. Pure function of its arguments and of whatever state the
+/// sampler itself keeps.
+fn gen_case(seed: u64, shard: usize, run: usize, t: &Tier, tally: &mut Tally) -> (Case, Constraints, [f64; 6], [f64; 6]) {
+    let calls_before = CALLS.with(|n| n.get());
+    let mut w = Rng::derive(seed, shard as u64, run as u64, "c18.workload");
+    let (from, to) = gen_limits(&mut w);
+    for j in 0..6 {
+        tally.bump(&format!("limits_{}", class_of(from[j], to[j])), 1);
+    }
+    let ctor: u8 = match w.below(10) {
+        0 | 1 => 1,
+        2 => 2,
+        3 => 3,
+        4 => 4,
+        5 => 5,
+        6 => 6,
+        7 => 7,
+        _ => 0,
+    };
+    tally.bump(&format!("constraints_built_by_{}", ["new", "from_degrees", "update_range", "edited_fields_then_update_range", "new_then_widened_tolerances", "solver_constraints_by_prev", "solver_constraints_by_constraints", "solver_constraints_weight_half"][ctor as usize]), 1);
+    let c = build(&Case { from, to, draws: vec![], tasks: 1, cfg: None, ctor, prelude: None, gen_calls: 0 });
+    let rows = adversarial_rows(&c, &mut w, t.uniform, t.grid, tally);
+    let concurrent = t.concurrent_every > 0 && run % t.concurrent_every == 0;
+    // history: a wider (or narrower) set with bit-identical centres sampled just before
+    // each observed call; limits symmetric about zero have centre exactly 0.0
+    let symmetric = run % 7 == 3;
+    let (from, to, prelude) = if symmetric {
+        let half: [f64; 6] = std::array::from_fn(|_| w.range_f64(0.05, 3.0));
+        let k = if w.chance(0.5) { w.range_f64(1.5, 6.0) } else { w.range_f64(0.05, 0.7) };
+        let f2: [f64; 6] = std::array::from_fn(|j| -(half[j] * k).min(2.0 * PI));
+        let t2: [f64; 6] = std::array::from_fn(|j| (half[j] * k).min(2.0 * PI));
+        tally.bump("history_sets_sampled_after_a_sibling_with_identical_centres", 1);
+        (std::array::from_fn(|j| -half[j]), half, Some((f2, t2)))
+    } else if run % 3 == 1 {
+        // other relatives of the set, sampled on the same thread just before: whatever a
+        // sampler keeps from call to call (a memo of widths, a batch of ready samples, a
+        // cached segment table) and validates by only PART of the limits is stale now
+        let kind = w.below(5);
+        let (pf, pt): ([f64; 6], [f64; 6]) = match kind {
+            // the complementary arc on some joints (from and to exchanged)
+            0 => {
+                let mask: [bool; 6] = std::array::from_fn(|_| w.chance(0.5));
+                let mask = if mask.iter().any(|b| *b) { mask } else { [true; 6] };
+                (std::array::from_fn(|j| if mask[j] { to[j] } else { from[j] }), std::array::from_fn(|j| if mask[j] { from[j] } else { to[j] }))
+            }
+            // same start, other end
+            1 => (from, std::array::from_fn(|j| to[j] + w.range_f64(-1.0, 1.0))),
+            // same end, other start
+            2 => (std::array::from_fn(|j| from[j] + w.range_f64(-1.0, 1.0)), to),
+            // same widths, shifted
+            3 => {
+                let d = w.range_f64(-2.0, 2.0);
+                (std::array::from_fn(|j| from[j] + d), std::array::from_fn(|j| to[j] + d))
+            }
+            // same sums (centres of ordinary ranges), other widths
+            _ => {
+                let k = w.range_f64(0.1, 0.9);
+                (std::array::from_fn(|j| from[j] + k * (to[j] - from[j]) * 0.5), std::array::from_fn(|j| to[j] - k * (to[j] - from[j]) * 0.5))
+            }
+        };
+        tally.bump(&format!("history_sets_sampled_after_a_relative_kind_{kind}"), 1);
+        (from, to, Some((pf, pt)))
+    } else {
+        (from, to, None)
+    };
+    let case = if concurrent {
+        let mut knobs = Rng::derive(seed, shard as u64, run as u64, "c18.knobs");
+        let cfg = SimCfg::swarm(&mut knobs, simctx::mix(&[seed, shard as u64, run as u64, 18]), 0, 100_000);
+        tally.bump("concurrent_sampler_runs", 1);
+        Case { from, to, draws: rows.iter().take(24).cloned().collect(), tasks: knobs.range_usize(2, 4), cfg: Some(cfg), ctor, prelude: None, gen_calls: 0 }
+    } else {
+        Case { from, to, draws: rows, tasks: 1, cfg: None, ctor: if prelude.is_some() { 0 } else { ctor }, prelude, gen_calls: 0 }
+    };
+    let mut case = case;
+    case.gen_calls = CALLS.with(|n| n.get()) - calls_before;
+    (case, c, from, to)
+}
+
+pub fn case_json(tier_name: &str, seed: u64, shard: usize, run: usize) -> Option<Value> {
+    let t = tier(tier_name);
+    let mut scratch = Tally::default();
+    let (case, _, _, _) = gen_case(seed, shard, run, &t, &mut scratch);
+    Some(json!({"check": "C18", "case": case}))
+}
+
 pub fn run(tier_name: &str, seed: u64) -> i32 {
     let t = tier(tier_name);
     let started = std::time::Instant::now();
@@ -501,46 +609,7 @@ pub fn run(tier_name: &str, seed: u64) -> i32 {
         let mut tally = Tally::default();
         for run in 0..t.sets_per_shard {
             report::progress(shard, run);
-            let mut w = Rng::derive(seed, shard as u64, run as u64, "c18.workload");
-            let (from, to) = gen_limits(&mut w);
-            for j in 0..6 {
-                tally.bump(&format!("limits_{}", class_of(from[j], to[j])), 1);
-            }
-            let ctor: u8 = match w.below(10) {
-                0 | 1 => 1,
-                2 => 2,
-                3 => 3,
-                4 => 4,
-                5 => 5,
-                6 => 6,
-                7 => 7,
-                _ => 0,
-            };
-            tally.bump(&format!("constraints_built_by_{}", ["new", "from_degrees", "update_range", "edited_fields_then_update_range", "new_then_widened_tolerances", "solver_constraints_by_prev", "solver_constraints_by_constraints", "solver_constraints_weight_half"][ctor as usize]), 1);
-            let c = build(&Case { from, to, draws: vec![], tasks: 1, cfg: None, ctor, prelude: None });
-            let rows = adversarial_rows(&c, &mut w, t.uniform, t.grid, &mut tally);
-            let concurrent = t.concurrent_every > 0 && run % t.concurrent_every == 0;
-            // history: a wider (or narrower) set with bit-identical centres sampled just before
-            // each observed call; limits symmetric about zero have centre exactly 0.0
-            let symmetric = run % 7 == 3;
-            let (from, to, prelude) = if symmetric {
-                let half: [f64; 6] = std::array::from_fn(|_| w.range_f64(0.05, 3.0));
-                let k = if w.chance(0.5) { w.range_f64(1.5, 6.0) } else { w.range_f64(0.05, 0.7) };
-                let f2: [f64; 6] = std::array::from_fn(|j| -(half[j] * k).min(2.0 * PI));
-                let t2: [f64; 6] = std::array::from_fn(|j| (half[j] * k).min(2.0 * PI));
-                tally.bump("history_sets_sampled_after_a_sibling_with_identical_centres", 1);
-                (std::array::from_fn(|j| -half[j]), half, Some((f2, t2)))
-            } else {
-                (from, to, None)
-            };
-            let case = if concurrent {
-                let mut knobs = Rng::derive(seed, shard as u64, run as u64, "c18.knobs");
-                let cfg = SimCfg::swarm(&mut knobs, simctx::mix(&[seed, shard as u64, run as u64, 18]), 0, 100_000);
-                tally.bump("concurrent_sampler_runs", 1);
-                Case { from, to, draws: rows.iter().take(24).cloned().collect(), tasks: knobs.range_usize(2, 4), cfg: Some(cfg), ctor, prelude: None }
-            } else {
-                Case { from, to, draws: rows, tasks: 1, cfg: None, ctor: if prelude.is_some() { 0 } else { ctor }, prelude }
-            };
+            let (case, c, from, to) = gen_case(seed, shard, run, &t, &mut tally);
             tally.evaluations += case.draws.len() as u64;
             let any_wrap = (0..6).any(|j| from[j] > to[j]);
             for r in &case.draws {
@@ -590,7 +659,7 @@ pub fn run(tier_name: &str, seed: u64) -> i32 {
                     signature: f.signature.clone(),
                     detail,
                     case: json!({"check": "C18", "case": min}),
-                    origin: None,
+                    origin: Some((shard, run)),
                 });
             }
         }
@@ -615,7 +684,7 @@ pub fn run(tier_name: &str, seed: u64) -> i32 {
         }),
         exhaustive: false,
     };
-    report::finish(meta, tally, wall, &|v| replay_all(&v["case"]), &|shard, run| { let _ = (shard, run); None })
+    report::finish(meta, tally, wall, &|v| replay_all(&v["case"]), &|shard, run| case_json(tier_name, seed, shard, run))
 }
 
 #[allow(dead_code)]
